@@ -230,6 +230,10 @@ func buildDecorator(spec DecSpec, bar, side, ord int) decor.Decorator {
 		} else {
 			d = decor.MovingAverageETA(decor.TimeStyle(spec.Style%4), &recAverage{bar: bar, side: side, ord: ord}, nil, wc)
 		}
+	case DecLibEwmaSpeed:
+		d = decor.EwmaSpeed(sizeUnit(spec.Style), spec.Fmt, float64(spec.Age), wc)
+	case DecLibEwmaETA:
+		d = decor.EwmaETA(decor.TimeStyle(spec.Style%4), float64(spec.Age), wc)
 	case DecCounters:
 		d = decor.Counters(sizeUnit(spec.Style), spec.Fmt, wc)
 	case DecPercentage:
